@@ -66,6 +66,9 @@ def truth_spectra(rng, f, th, lead_shape):
 
 def _wind(rng, shape):
     spd = rng.uniform(0.5, 30, shape)
+    # light airs (centimetres per second) among the records: a direction is still a direction
+    light = rng.random(shape) < 0.25
+    spd = np.where(light, 10 ** rng.uniform(-2, -0.3, shape), spd)
     dfrom = rng.uniform(0, 360, shape)
     # vector the wind blows towards: u east, v north
     u = -spd * np.sin(np.radians(dfrom))
@@ -152,6 +155,11 @@ def wwm(rng, with_wind=True, with_depth=True, order=None):
     ds["SPSIG"] = (("nfreq",), sig)
     ds["SPDIR"] = (("ndir",), np.radians(th_from).astype("float32") if rng.random() < 0.4 else np.radians(th_from))
     ds = ds.assign_coords(ocean_time=_times(nt))
+    u_ = rng.random()
+    if u_ < 0.35:
+        # the native spectral / station dimensions carry index coordinates (bin numbers from 0 or 1, or the values in Hz)
+        o_ = int(rng.integers(0, 2))
+        ds = ds.assign_coords(nfreq=(f if u_ < 0.1 else np.arange(o_, nf + o_)), ndir=np.arange(o_, nd + o_), nbstation=np.arange(o_, ns + o_))
     lon, lat = rng.uniform(-180, 180, ns), rng.uniform(-60, 60, ns)
     ds["lon"] = (("nbstation",), lon)
     ds["lat"] = (("nbstation",), lat)
